@@ -285,6 +285,7 @@ def gen(repo):
     ]
     fns = ""
     for s in specs:
+        s.setdefault("opt_neg", True)   # optional respelling of a unary minus on a plain name (reported when applied)
         t, meta = X.extract(hsrc, s)
         meta_all["edits"] += ["%s: %s" % (s["fn"], e) for e in meta["edits"]]
         fns += t + "\n"
